@@ -104,6 +104,20 @@ impl<StorageT: PrimInt + Unsigned> PartialEq for PathFNode<StorageT> {
 
 impl<StorageT: PrimInt + Unsigned> Eq for PathFNode<StorageT> {}
 
+/// Holds a reference to a cactus stack and, when dropped, releases it one element at a time
+/// (dropping the last reference to a long `Cactus` otherwise recurses once per element, which
+/// overflows the native stack for parse stacks a few hundred thousand entries deep).
+struct UnwindCactus<T>(Option<Cactus<T>>);
+
+impl<T> Drop for UnwindCactus<T> {
+    fn drop(&mut self) {
+        let mut c = self.0.take();
+        while let Some(n) = c {
+            c = n.parent();
+        }
+    }
+}
+
 struct CPCTPlus<
     'a,
     'b: 'a,
@@ -175,6 +189,11 @@ where
         for st in in_pstack.iter() {
             start_cactus_pstack = start_cactus_pstack.child(*st);
         }
+        // Every node of the search shares this copy of the parse stack. Whoever drops the last
+        // reference to it would free it recursively, one stack frame per element: keep a
+        // reference that outlives the search (declared first, so dropped last) and takes the
+        // stack apart iteratively.
+        let _unwind_pstack = UnwindCactus(Some(start_cactus_pstack.clone()));
 
         let start_node = PathFNode {
             pstack: start_cactus_pstack,
